@@ -139,43 +139,63 @@ func VerifListPackets(mode string, msg []byte) (l VerifListing) {
 		l.HeaderState = "badmajor"
 		return l
 	}
-	for k := 0; ; k++ {
-		s, err := verifSkip(msg, k)
-		if err != nil {
-			l.Tail = err
-			return l
-		}
-		var x interface{}
-		if _, err := s.Read(&x); err != nil {
-			l.Tail = err
-			return l
-		}
-		s, _ = verifSkip(msg, k)
-		var it VerifItem
+	// The receivers advance through the stream by TYPED reads only (a generic
+	// read happens once, in assertEndOfStream), and go-codec's typed decoding
+	// is more lenient than its generic one (a map is accepted where an array
+	// is expected and swallows what follows), so the listing follows the typed
+	// reads: position k is where the stream stands after k blocks were read.
+	typed := func(s *msgpackStream) (it VerifItem, err error) {
 		switch mode {
 		case "enc":
 			ct, auths, isFinal, _, err := readEncryptionBlock(version, s)
-			if err == nil {
-				it.Decodes, it.Ct, it.Final = true, ct, isFinal
-				for _, a := range auths {
-					it.Auths = append(it.Auths, append([]byte(nil), a[:]...))
-				}
+			if err != nil {
+				return it, err
+			}
+			it.Decodes, it.Ct, it.Final = true, ct, isFinal
+			for _, a := range auths {
+				it.Auths = append(it.Auths, append([]byte(nil), a[:]...))
 			}
 		case "signcrypt":
 			var sb signcryptionBlock
-			if _, err := s.Read(&sb); err == nil {
-				it.Decodes, it.Ct, it.Final = true, sb.PayloadCiphertext, sb.IsFinal
+			if _, err := s.Read(&sb); err != nil {
+				return it, err
 			}
+			it.Decodes, it.Ct, it.Final = true, sb.PayloadCiphertext, sb.IsFinal
 		default:
 			sig, chunk, isFinal, _, err := readSignatureBlock(version, s)
-			if err == nil {
-				it.Decodes, it.Sig, it.Chunk, it.Final = true, sig, chunk, isFinal
+			if err != nil {
+				return it, err
 			}
+			it.Decodes, it.Sig, it.Chunk, it.Final = true, sig, chunk, isFinal
 		}
-		l.Items = append(l.Items, it)
-		if !it.Decodes {
+		return it, nil
+	}
+	at := func(k int) *msgpackStream {
+		s, _ := verifSkip(msg, 0)
+		for i := 0; i < k; i++ {
+			typed(s)
+		}
+		return s
+	}
+	for k := 0; ; k++ {
+		it, err := typed(at(k))
+		if err == nil {
+			l.Items = append(l.Items, it)
+			continue
+		}
+		if err == io.EOF {
+			l.Tail = err
 			return l
 		}
+		// not a block: an object of another shape (listed as an item that does
+		// not decode), or nothing readable at all (the tail error)
+		var x interface{}
+		if _, gerr := at(k).Read(&x); gerr != nil {
+			l.Tail = err
+			return l
+		}
+		l.Items = append(l.Items, VerifItem{})
+		return l
 	}
 }
 
